@@ -47,15 +47,15 @@ type glFunc struct {
 }
 
 type glGroup struct {
-	id      string   // generator id, e.g. "golitec04"
-	out     string   // file name, e.g. "GoLiteC04.v"
-	pkgDir  string   // directory relative to the repository root
-	prefix  string   // prefix of the names in the generated program (for a second package in the same file)
-	funcs   []glFunc // functions to translate
-	externs []string // qualified names (pkg.Func) of calls that become SCallExt oracles
+	id      string            // generator id, e.g. "golitec04"
+	out     string            // file name, e.g. "GoLiteC04.v"
+	pkgDir  string            // directory relative to the repository root
+	prefix  string            // prefix of the names in the generated program (for a second package in the same file)
+	funcs   []glFunc          // functions to translate
+	externs []string          // qualified names (pkg.Func) of calls that become SCallExt oracles
 	hoist   bool              // give the locals declared inside a loop body their zero value before the loop (one environment shape for proofs; dead stores in Go terms)
 	devirt  map[string]string // interface type name -> the one translated type whose methods its calls resolve to
-	more    []glGroup // further packages translated into the same file (their pkgDir/prefix/funcs/externs)
+	more    []glGroup         // further packages translated into the same file (their pkgDir/prefix/funcs/externs)
 	recvArg bool              // an interface-method oracle receives the receiver value as its first argument
 	consts  map[string]string // integer constants of third-party packages (not type-checked here): "pkg.Name" -> value
 }
@@ -171,14 +171,14 @@ func (p *glPkg) findFunc(recv, name string) *ast.FuncDecl {
 // ---------------------------------------------------------------- translation state
 
 type glTr struct {
-	p       *glPkg
-	g       glGroup
-	byObj   map[types.Object]*glFn // translated functions of the group by their types.Func
-	fns     []*glFn
-	externs map[string]bool
+	p         *glPkg
+	g         glGroup
+	byObj     map[types.Object]*glFn // translated functions of the group by their types.Func
+	fns       []*glFn
+	externs   map[string]bool
 	externOut map[string]int
-	recvPath map[*ast.CallExpr][]string
-	bindings []string // what is passed for a function-typed (oracle) parameter at each call site
+	recvPath  map[*ast.CallExpr][]string
+	bindings  []string // what is passed for a function-typed (oracle) parameter at each call site
 }
 
 type glFn struct {
@@ -942,7 +942,18 @@ func (t *glTr) expr(c *glCtx, e ast.Expr) string {
 			return fmt.Sprintf("ECmp %s (%s) (%s)", glCmp[x.Op], t.expr(c, x.X), t.expr(c, x.Y))
 		}
 		if op, ok := glBinop[x.Op]; ok {
-			return fmt.Sprintf("EBin %s %s (%s) (%s)", op, t.ity(e, t.p.info.TypeOf(e)), t.expr(c, x.X), t.expr(c, x.Y))
+			ty := t.p.info.TypeOf(e)
+			if ty == nil {
+				// an operand mentions a value of a third-party type that is not type-checked here (e.g. len(c.Bytes())):
+				// the other operand, or the result type of len, gives the type
+				if ty = t.p.info.TypeOf(x.Y); ty == nil {
+					ty = t.p.info.TypeOf(x.X)
+				}
+				if ty == nil && (glIsLenCall(x.X) || glIsLenCall(x.Y)) {
+					ty = types.Typ[types.Int]
+				}
+			}
+			return fmt.Sprintf("EBin %s %s (%s) (%s)", op, t.ity(e, ty), t.expr(c, x.X), t.expr(c, x.Y))
 		}
 		t.fail(e, "binary operator %s", x.Op)
 	case *ast.IndexExpr:
@@ -1088,11 +1099,19 @@ func (t *glTr) callExpr(c *glCtx, x *ast.CallExpr) string {
 	case "len":
 		// the length of a slice of non-integers (e.g. of interface values) is the length of the list that stands for
 		// it in the model (its elements are opaque)
-		switch t.p.info.TypeOf(x.Args[0]).Underlying().(type) {
-		case *types.Slice, *types.Array:
-		default:
-			if !isIntSeq(t.p.info.TypeOf(x.Args[0])) {
-				t.fail(x, "len of %s", t.p.info.TypeOf(x.Args[0]))
+		if aty := t.p.info.TypeOf(x.Args[0]); aty == nil {
+			// the result of an oracle of a third-party package that is not type-checked here: a byte sequence by
+			// declaration of the oracle
+			if _, isCall := x.Args[0].(*ast.CallExpr); !isCall {
+				t.fail(x, "len of an expression without type")
+			}
+		} else {
+			switch aty.Underlying().(type) {
+			case *types.Slice, *types.Array:
+			default:
+				if !isIntSeq(aty) {
+					t.fail(x, "len of %s", aty)
+				}
 			}
 		}
 		return "ELen (" + arg(0) + ")"
@@ -1995,4 +2014,13 @@ func glHasCall(e ast.Expr) bool {
 		return true
 	})
 	return found
+}
+
+func glIsLenCall(e ast.Expr) bool {
+	c, ok := e.(*ast.CallExpr)
+	if !ok {
+		return false
+	}
+	id, ok := c.Fun.(*ast.Ident)
+	return ok && id.Name == "len"
 }
